@@ -350,6 +350,7 @@ def run(rep):
     real = [f for f in tot.fails if f["kind"] in ("property-fails-on-impl", "property-netlist")]
     other = [f for f in tot.fails if f not in real]
     if real:
+        real.sort(key=lambda f: 0 if f["kind"] == "property-netlist" else 1)
         f = real[0]
         if f["kind"] == "property-fails-on-impl":
             try:
